@@ -157,7 +157,11 @@ func cmdVerify(args []string) int {
 		if *prop == "C09" {
 			// every indicator / strategy method under contract
 			pk := strings.SplitN(k, ".", 2)[0]
-			if !(pk == "trend" || pk == "momentum" || pk == "volatility" || pk == "volume" || strings.HasPrefix(pk, "strategy")) {
+			if !(pk == "trend" || pk == "momentum" || pk == "volatility" || pk == "volume" || strings.HasPrefix(pk, "strategy") ||
+				strings.HasPrefix(k, "helper.Csv.") || strings.HasPrefix(k, "backtest.Backtest.")) {
+				// ... plus the two other anchors of the property: the CSV codec object and the backtester (for these the
+				// declared frame - modifies c.columns, modifies b.report - is what may be written; anything else is state
+				// kept on the instance)
 				continue
 			}
 		} else if *prop != "" && !hasTag(fi.Contract.tags(), *prop) {
